@@ -151,6 +151,20 @@ impl Salsa20Cipher {
     }
 }
 
+/// Verification instrumentation (cargo feature `verif-hooks`, off by default).
+#[cfg(feature = "verif-hooks")]
+impl Salsa20Cipher {
+    /// Position the 64-bit block counter at `(lo, hi)` and regenerate the
+    /// current keystream block, as if `lo + (hi << 32)` blocks had already been
+    /// consumed. Lets a harness reach the 2^32-block carry without streaming
+    /// 256 GiB.
+    pub fn verif_set_block_counter(&mut self, lo: u32, hi: u32) {
+        self.state[8] = lo;
+        self.state[9] = hi;
+        self.generate_keystream();
+    }
+}
+
 /// Decrypt data using CASC Salsa20 variant
 pub fn decrypt_salsa20(
     data: &[u8],
